@@ -37,7 +37,7 @@ def interleavings(counts):
 
 def generate(rng, tier):
     cases = []
-    n = {"quick": 120, "thorough": 1500, "search": 500}.get(tier, 120)
+    n = {"quick": 300, "thorough": 1500, "search": 500}.get(tier, 120)
     for i in range(n):
         nsh = rng.randint(1, 4)
         lines, ids = fill(rng, nsh)
